@@ -47,6 +47,22 @@ theorem acts_once_at_step [SMul M S] (e : Env M S R) (x0 : S) :
       if e.recordAll then (List.range (e.N + 1)).map (seen e x0) else [seen e x0 e.N] :=
   computeDynamics_eq e x0
 
+/-- First step = last step (`num_steps = 0`): nothing before the step loop returns early
+    (`cdLoopRunsForEveryN`, regenerated from the statements between input parsing and the loop), the
+    loop body runs once, and the single recorded state is the PRE-controlled initial state
+    `caps_0 (pre_0 • x0)` — with and without `record_all`. -/
+theorem zero_steps [SMul M S] (e : Env M S R) (x0 : S) (h : e.N = 0) :
+    cdLoopRunsForEveryN = true ∧
+    computeDynamics e x0 = [e.cap 0 (applyOpt (e.ctl 0).1 x0)] := by
+  refine ⟨rfl, ?_⟩
+  rw [acts_once_at_step, h]
+  cases e.recordAll <;> simp [seen, traj]
+
+/-- non-vacuity of `zero_steps` -/
+example : ({ N := 0, ctl := fun _ => (some 2, none), P1 := fun _ => 1, P2 := fun _ => 1,
+             mpo := fun _ x => x, cap := fun _ x => x, recordAll := false } : Env Nat Nat Nat).N = 0 :=
+  rfl
+
 /-- the formula behind `seen` / `traj`, spelled out -/
 theorem seen_unfold [SMul M S] (e : Env M S R) (x0 : S) (k : Nat) :
     seen e x0 k = e.cap k (applyOpt (e.ctl k).1 (traj e x0 k)) ∧
@@ -383,5 +399,19 @@ example [Monoid M] [MulAction M S] (a b : M) :
   constructor
   · intro i x; exact one_smul M x
   · simp [ChainCtl.add]
+
+/-- Object lifetime.  `PtTebd` holds the `ChainControl` BY REFERENCE and derives nothing from it at
+    construction (`tebdControlByReference`, regenerated: the only assignments to
+    `self._chain_control` store the given object, no other attribute is computed from it, it is read
+    only in `_apply_controls`).  Hence controls registered AFTER the object was built — on the
+    shared `ChainControl` or through `tebd.chain_control` — act exactly like controls registered
+    before: `construct(c0); add*; compute(start+n)` records what a fresh run with the control
+    `c0 + adds` records, for every `c0` (also the empty one), every list of additions and `n`. -/
+theorem controls_added_after_construction_act [Mul M] (base : TebdEnv M S R) (c0 : ChainCtl M)
+    (s0 : Int) (x0 : S) (adds : List (ChainEntry M × Bool)) (n : Nat) :
+    tebdControlByReference = true ∧
+    tebdHistory base c0 s0 x0 (addsToOps adds ++ [TebdHistOp.compute (s0 + n)])
+      = tebdRun { base with ctl := addAll c0 adds } s0 x0 n :=
+  ⟨rfl, history_add_then_compute base c0 s0 x0 adds n⟩
 
 end OQuPyVerif.Props.C18
